@@ -11,6 +11,16 @@ TABLE = {
  "C14-a": ("C14", "regular multi-stage planner aligns read chunks with the FINAL write chunks instead of the first intermediate stage: needs allow_irregular=False, a >= 2-stage plan and a consolidated read chunk that is not a multiple of the first stage chunk (e.g. 53 vs 7) -> first copy's tasks straddle stored chunks (also C05)"),
  "C05-a": ("C05", "same source change as C14-a, found independently: multi-stage regular rechunk whose first copy chunks are not aligned with the intermediate store's chunks -> two tasks write the same stored chunk"),
  "C01-a": ("C01", "stack() keeps a reference to the first input taken BEFORE unify_chunks: needs inputs chunked differently from each other with the first one coarser -> output chunk grid does not match the blocks read: broadcast of size-1 blocks gives silently wrong values, otherwise a mid-run broadcast error (also C12, C17)"),
+ "C09-a": ("C09", "already_computed returns True after checking the FIRST output array of an operation: needs resume=True, a multi-output operation (or an operation whose first listed output is complete while another one is not) -> the operation is skipped although one of its outputs is incomplete"),
+ "C17-a": ("C17", "qr's row-chunk precondition compares only the nominal chunk size with the column count: needs a last (shorter) row chunk with fewer rows than columns -> accepted, then fails inside a task / writes a mis-shaped R block (also C12)"),
+ "C18-a": ("C18", "convert_to_bytes: `if isinstance(size, float)` turned into `elif`: needs a STRING memory setting whose exact value is not an integer number of bytes (e.g. '1.5B', '0.3kB') -> the non-integer float is no longer refused / rounded as documented"),
+ "C02-a": ("C02", "the 'predecessor produces an array being computed' fusion veto is moved after the always_fuse shortcut: needs always_fuse naming an op whose predecessor's output is itself requested in the same compute -> the requested array is fused away and never written"),
+ "C04-a": ("C04", "peak_projected_mem stops at the first unfusable (None) predecessor instead of skipping it: needs multiple-input fusion where a non-fused predecessor precedes fused ones in argument order -> the fused op's projected memory omits the later predecessors and a plan over the limit is admitted"),
+ "C20-a": ("C20", "arrays_to_dag compares each array's merged node target with its own storage and raises: needs two arrays with the same generated name from different processes -> refused with ValueError instead of silently aliasing; breaks the same-process-clone case (equal names, equal storage objects compare unequal after pickling)"),
+ "C12-a": ("C12", "tensordot normalises the contracted axes by sorting them: needs axes given in DESCENDING order for one operand (e.g. axes=([2,1],[0,1])) -> contraction pairs the wrong dimensions; the declared shape differs from the blocks written, which are silently broadcast/truncated"),
+ "C19-a": ("C19", "map_blocks takes the spec for coercing non-cubed arguments from args[0] only: needs a NON-cubed first argument (numpy array / scalar) followed by a cubed array that carries an explicit Spec -> 'Arrays must have same spec' although the same call is accepted under the default configuration"),
+ "C06-a": ("C06", "structured-dtype arrays are created with group.create_array(overwrite=mode != 'w-'): needs a structured intermediate (mean/argmax/var, unfused) and a create-arrays task re-executed after a downstream task wrote chunks -> the chunks are deleted, results become NaN/0 without any error"),
+ "C03-a": ("C03", "partial_reduce sizes the reduced chunks of its extra_projected_mem with the INPUT dtype: needs a widening reduction (mean/var of float32, sum of int32/int8) over chunks that are skinny along the reduced axis (1-2 rows, long kept axis) -> the first partial reduce is projected ~10-30% below its real peak. NOTE: written against the tree before fix 6b9de17, which changes the same line; patch_rebased.diff is the same change on the repaired tree"),
 }
 for sid, (prop, needs) in TABLE.items():
     d = os.path.join(ROOT, sid)
@@ -29,7 +39,8 @@ for sid, (prop, needs) in TABLE.items():
         "origin": "written by an independent sub-agent that saw only the property text and its own scratch worktree",
         "confirmed": {"demo_without_change_exit": 0 if "demo without change: exit 0" in log else None,
                       "demo_with_change_exit_nonzero": bool(re.search(r"demo with change: exit [1-9]", log)),
-                      "how": "tools/seed_eval.sh: fresh scratch worktree of /repo HEAD, demo run without and with patch.diff applied; then patch applied to /repo, quick checks run, /repo restored (git checkout -- .)"},
+                      "how": "tools/seed_eval.sh: fresh scratch worktree of /repo HEAD, demo run without and with patch.diff applied; then quick checks run against the changed code ("
+                             + ("a scratch worktree put first on PYTHONPATH, because /repo was in use by long runs" if "scratch worktree" in log else "patch applied to /repo, /repo restored with git checkout -- .") + ")"},
         "checks_run_at_first_evaluation": checks,
         "checks_run_after_strengthening": extra,
         "files": sorted(os.listdir(d)),
